@@ -305,6 +305,9 @@ def handle (line : String) : String :=
     | some f => s!"sft={if f = "binproto" then "bin" else "text"} ft={ftStr (Scalibr.ProtoResult.formatType f)}"
     | none => "bad-op"
   | ["fname", _, _] => "issues=-"
+  | ["harvestv", _, _, _] => "issues=-"
+  | ["boundaryv", _, _, _, _] => "issues=-"
+  | ["jsonmut", _, _, _] => "issues=-"
   -- the specification: no public selection function hands out an extractor the harvest (list.All) has not seen
   | ["reach", k] => if ["names", "caps", "unknown"].contains k then "escaped=- bad=-" else "bad-op"
   -- the specification: a write that cannot be completed is reported, and no regular file appears where none was written completely
